@@ -621,9 +621,12 @@ impl<Backing : AsRef<[u32]> + AsMut<[u32]>> DrawTarget<Backing> {
     /// group opacity or blend effects.
     pub fn push_layer_with_blend(&mut self, opacity: f32, blend: BlendMode) {
         let rect = self.clip_bounds();
+        // the clip bounds can be empty or inverted (e.g. disjoint clip rects)
+        let width = rect.size().width.max(0);
+        let height = rect.size().height.max(0);
         self.layer_stack.push(Layer {
             rect,
-            buf: vec![0; (rect.size().width * rect.size().height) as usize],
+            buf: vec![0; (width * height) as usize],
             opacity,
             blend
         });
